@@ -83,10 +83,20 @@ namespace Eigen { namespace internal {
 template <typename MatrixType, typename ResultType, int Size>
 struct vs_inverse_stub {
   static inline void run(const MatrixType& matrix, ResultType& result) {
-    static int counter = 0;
-    int k = counter++;
-    vs::InvRec rec; rec.n = Size;
     typename MatrixType::PlainObject m = matrix;
+    // the stub is a function: the same argument matrix (same expression DAG) gives the same result
+    std::vector<int> key;
+    for (int c = 0; c < Size; ++c) for (int r = 0; r < Size; ++r) key.push_back(m(r, c).id);
+    for (size_t j = 0; j < vs::inv_records().size(); ++j) {
+      const vs::InvRec& old = vs::inv_records()[j];
+      if (old.n == Size && old.m == key) {
+        for (int c = 0; c < Size; ++c) for (int r = 0; r < Size; ++r)
+          result.coeffRef(r, c) = vs::Sym::from_id(old.x[c * Size + r]);
+        return;
+      }
+    }
+    int k = (int)vs::inv_records().size();
+    vs::InvRec rec; rec.n = Size;
     for (int c = 0; c < Size; ++c) for (int r = 0; r < Size; ++r) {
       vs::Sym v = vs::Sym::var("inv" + std::to_string(k) + "_" + std::to_string(r) + "_" + std::to_string(c));
       result.coeffRef(r, c) = v;
